@@ -396,14 +396,12 @@ impl<'a> From<Piece<'a>> for Chunk {
                             for piece in arg {
                                 match *piece {
                                     Piece::Text(text) => format.push_str(text),
+                                    // reported as errors of their own: as part of the date format
+                                    // they would be cut (or hidden) by the formatter's width spec
                                     Piece::Argument { .. } => {
-                                        format.push_str("{ERROR: unexpected formatter}");
+                                        return Chunk::Error("unexpected formatter".to_owned());
                                     }
-                                    Piece::Error(ref err) => {
-                                        format.push_str("{ERROR: ");
-                                        format.push_str(err);
-                                        format.push('}');
-                                    }
+                                    Piece::Error(ref err) => return Chunk::Error(err.clone()),
                                 }
                             }
                             format
